@@ -270,13 +270,18 @@ class ECPubKey:
                 int.from_bytes(data[33:65], "big"),
                 1,
             )
-            self.valid = SECP256K1.on_curve(p)
+            # coordinates must be reduced field elements
+            self.valid = (
+                p[0] < SECP256K1_FIELD_SIZE
+                and p[1] < SECP256K1_FIELD_SIZE
+                and SECP256K1.on_curve(p)
+            )
             if self.valid:
                 self.p = p
                 self.compressed = False
         elif len(data) == 33 and (data[0] == 0x02 or data[0] == 0x03):
             x = int.from_bytes(data[1:33], "big")
-            if SECP256K1.is_x_coord(x):
+            if x < SECP256K1_FIELD_SIZE and SECP256K1.is_x_coord(x):
                 p = SECP256K1.lift_x(x)
                 # Make the Y coordinate odd if required (lift_x always produces
                 # a point with an even Y coordinate).
